@@ -11,9 +11,9 @@ cd /verif || exit 3
 if [ -n "$(git -C /repo status --porcelain)" ]; then echo "/repo working tree not clean" >&2; exit 3; fi
 SAVE=$(mktemp -d /tmp/seeded-evidence.XXXXXX); cp evidence/*.json $SAVE/
 for d in seeded/$GLOB/; do
-  name=$(basename $d); prop=${name%%-*}; prop=${prop%b}
+  name=$(basename $d); prop=${name%%-*}; prop=${prop%[bc]}
   [ -f $d/patch.diff ] || continue
-  if ! git -C /repo apply $d/patch.diff 2>/dev/null; then echo "$name - exit=NOAPPLY"; continue; fi
+  if ! git -C /repo apply /verif/$d/patch.diff 2>/dev/null; then echo "$name - exit=NOAPPLY"; continue; fi
   if [ "$MODE" = all ]; then checks=$(seq -f "C%02g" 1 20); else checks=$prop; fi
   for c in $checks; do
     out=$(timeout 900 ./vcheck.sh $c quick 2>&1); rc=$?
